@@ -53,6 +53,8 @@ func wordsOf(bytes int) uint64 { return (uint64(bytes) + 31) / 32 }
 
 var location = common.Location{0, 0}
 
+var bigMiB = []uint64{64} // -bigmib: sizes of the oracle-only requests beyond 16 MiB
+
 var logAll bool // -allsteps: write every interpreter step to the trace
 
 const (
@@ -77,6 +79,7 @@ type Program struct {
 	Gas     uint64            `json:"gas"`
 	Block   uint64            `json:"block"`
 	Seed    int64             `json:"seed"`
+	NoTrace bool              `json:"notrace,omitempty"` // numbers exceed TLC's 32-bit integers: judged by the driver's oracle only
 }
 
 type Event struct {
@@ -119,9 +122,11 @@ type Result struct {
 	Programs     int                  `json:"programs"`
 	Directed     int                  `json:"directed_programs"`
 	Random       int                  `json:"random_programs"`
+	NoTrace      int                  `json:"programs_not_in_trace"`
 	Steps        int                  `json:"steps"`
 	LoggedSteps  int                  `json:"logged_steps"`
 	LoggedBroken int                  `json:"logged_states_bound_broken"`
+	LoggedFaults int                  `json:"logged_faults"`
 	Events       int                  `json:"events"`
 	MaxDepth     int                  `json:"max_depth"`
 	Frames       int                  `json:"frames"`
@@ -325,6 +330,7 @@ func (t *tracer) fault(name string, depth int, f *frame, before, after, gas, ga 
 		f.words = after
 	}
 	if t.log {
+		t.res.LoggedFaults++
 		f.seen = true
 		t.events = append(t.events, Event{Ev: "fault", P: t.idx, Op: name, D: depth, Mb: before, Ma: after, Gb: gas, Ga: ga, Fg: f.entryGas, Tg: t.topLeft()})
 	}
@@ -420,6 +426,7 @@ func execute(p *Program, idx int, facts map[byte]*OpFact, res *Result, logEvents
 	for _, h := range p.Access {
 		statedb.AddAddressToAccessList(common.HexToAddress(h, location).Bytes20())
 	}
+	logEvents = logEvents && !p.NoTrace
 	tr := &tracer{prog: p, idx: idx, facts: facts, res: res, topGas: p.Gas, log: logEvents, all: logAll || strings.HasPrefix(p.Label, "probe-")}
 	if logEvents {
 		tr.events = append(tr.events, Event{Ev: "tracereset", P: idx, G: p.Gas})
@@ -857,6 +864,23 @@ func directed(list []*OpFact) []*Program {
 			}
 		}
 	}
+	// beyond 16 MiB (64 MiB, 256 MiB through a one-word region at the end) with enough gas to pay for it:
+	// not part of the TLC trace (gas > 2^31), judged by the driver's oracle only
+	for _, f := range list {
+		if !f.HasMemSize {
+			continue
+		}
+		op := vm.OpCode(f.Op)
+		for _, mib := range bigMiB {
+			a := &asm{}
+			snippet(a, vm.MSTORE, args{r: [2]region{{0x1000, 0}}, word: 7})
+			snippet(a, op, endRegion(op, mib<<20/32))
+			a.op(vm.STOP)
+			gas := memCost(mib<<20/32) + 10000000
+			add(fmt.Sprintf("dir/%s/%dM-end-notrace/gas=%d", f.Name, mib, gas), a, gas)
+			out[len(out)-1].NoTrace = true
+		}
+	}
 	// recursion: the contract grows its memory, then calls itself with all gas; ~40 live frames under 1e9 gas
 	for _, gas := range []uint64{1000000, 20000000} {
 		a := &asm{}
@@ -1120,6 +1144,9 @@ func (t *traceWriter) close() int {
 func runPrograms(progs []*Program, facts map[byte]*OpFact, res *Result, tw *traceWriter, base int) {
 	for i, p := range progs {
 		tr, _, _ := execute(p, base+i, facts, res, tw != nil)
+		if p.NoTrace {
+			res.NoTrace++
+		}
 		tw.write(tr.events)
 		if tw != nil && len(res.Samples) < 3 && len(tr.events) > 6 && (i%97 == 5 || strings.Contains(p.Label, "ETX/1M-end/r0/pre=false")) {
 			n := len(tr.events)
@@ -1157,7 +1184,15 @@ func main() {
 	n := fs.Int("n", 300, "number of random programs")
 	nodirected := fs.Bool("nodirected", false, "skip the directed per-opcode programs")
 	fs.BoolVar(&logAll, "allsteps", false, "log every interpreter step (default: memorySize opcodes, memory changes, frame entries, faults)")
+	big := fs.String("bigmib", "64", "comma separated MiB sizes for the oracle-only directed programs beyond 16 MiB")
 	fs.Parse(os.Args[2:])
+	bigMiB = nil
+	for _, x := range strings.Split(*big, ",") {
+		var v uint64
+		if _, err := fmt.Sscan(x, &v); err == nil && v > 0 {
+			bigMiB = append(bigMiB, v)
+		}
+	}
 	t0 := time.Now()
 	switch os.Args[1] {
 	case "facts":
